@@ -68,6 +68,9 @@ func encStr(b []byte, s []byte) []byte {
 	return append(append(b, l[:]...), s...)
 }
 
+var sharedStrInfo = map[string]string{ttheader.GDPRToken: "shared-token", "who": "everybody"}
+var sharedIntInfo = map[uint16]string{3: "three"}
+
 func cycle(g, it int) {
 	stamp := g%15 + 1
 	big := stamped(stamp, 5000+it%700, it)
@@ -143,6 +146,16 @@ func cycle(g, it int) {
 		fail("goroutine %d: ttheader round trip returned foreign/corrupt values", g)
 	}
 	hr.Release(nil)
+	// every goroutine encodes with the SAME parameter maps: Encode only reads them
+	var gs bytes.Buffer
+	gw := bufiox.NewDefaultWriter(&gs)
+	if _, err := ttheader.Encode(context.Background(), ttheader.EncodeParam{SeqID: int32(it), StrInfo: sharedStrInfo, IntInfo: sharedIntInfo}, gw); err != nil {
+		fail("encode with shared maps: %v", err)
+	}
+	gw.Flush()
+	if gp, err := ttheader.DecodeFromBytes(context.Background(), gs.Bytes()); err != nil || gp.StrInfo[ttheader.GDPRToken] != "shared-token" || gp.StrInfo["who"] != "everybody" || gp.IntInfo[3] != "three" {
+		fail("goroutine %d: frame encoded from shared parameter maps lacks entries", g)
+	}
 	// span allocator + fast codec
 	in := encStr(nil, big[:300])
 	str, _, _ := thrift.Binary.ReadString(in)
